@@ -67,6 +67,18 @@ def build_cases(tb, rnd, tier):
             a = base[cat][0]
         add(cat, [a, n], 'server', n, 'unknown')
         add(cat, [n], 'client', n, 'unknown')
+    # unknown names whose spelling the Terrapin rule matches, inside and outside a Terrapin context
+    for role in ('server', 'client'):
+        for strict in (False, True):
+            kx = ['curve25519-sha256'] + ([rating_marker(role)] if strict else [])
+            for cat, n, enc, mac in (('enc', 'sm4-cbc', ['aes128-ctr', 'sm4-cbc'], ['hmac-sha2-256-etm@openssh.com']),
+                                     ('enc', 'chacha20-poly1305@example.org', ['chacha20-poly1305@example.org'], ['hmac-sha2-256']),
+                                     ('mac', 'hmac-sha3-256-etm@openssh.com', ['aes128-cbc'], ['hmac-sha3-256-etm@openssh.com', 'hmac-sha2-256']),
+                                     ('enc', 'foo-cbc@ssh.com', ['foo-cbc@ssh.com', 'aes128-ctr'], ['umac-128-etm@openssh.com'])):
+                cid[0] += 1
+                c = rating.mk_case(cid[0], role=role, kex=kx, key=['ssh-ed25519'], enc=enc, mac=mac)
+                cases.append(c)
+                meta[c['id']] = (cat, n, 'unknown-terrapin-shape')
     # measured context: the same name with different measured sizes, text vs JSON must agree with the rule
     ossh = {'product': 'OpenSSH', 'c': [8, 9], 'p': ['p', 1]}
     for bits in (1024, 2048, 3072, 4096):
@@ -80,6 +92,10 @@ def build_cases(tb, rnd, tier):
     add('kex', ['diffie-hellman-group-exchange-sha256'], 'server', 'diffie-hellman-group-exchange-sha256', 'sized',
         dh={'diffie-hellman-group-exchange-sha256': (3072, True)}, sw=ossh)
     return cases, meta
+
+
+def rating_marker(role):
+    return 'kex-strict-s-v00@openssh.com' if role == 'server' else 'kex-strict-c-v00@openssh.com'
 
 
 def run(tier):
